@@ -25,7 +25,7 @@ CONVERTERS = {
 # evidence, and any *other* function with a swallowing handler is reported.
 NOT_REQUEST_HELPERS = {
     "chuk_mcp.__main__:test_server": "CLI connectivity test: its feature probes print the error and continue",
-    "chuk_mcp.mcp_client.host.server_manager:run_command.<locals>._run_clients": "multi-server runner reports a failed server and continues with the others",
+    "chuk_mcp.mcp_client.host.server_manager:run_command": "multi-server runner reports a failed server and continues with the others",
     "chuk_mcp.transports.stdio.stdio_client:stdio_client_with_initialize": "transport context wrapper that filters shutdown noise by message text and re-raises everything else; the request helper inside it has already raised the classified error (a server message containing 'cancel scope' would surface as contextlib's RuntimeError: recorded, not an obligation of the request API)",
 }
 
@@ -259,9 +259,11 @@ def check(P: Project, R: Report) -> None:
                     ok = not exits_normal and rets and all(isinstance(r.value, ast.Constant) and r.value.value is False for r in rets) and not ho.exc
                     R.ob("R4", key + " returns False", ok, where, "documented boolean helper must report an error as False on every handler path",
                          sample=f"R4 {f.qual}: handler returns False ({BOOL_HELPERS[f.fq]})")
-                elif f.fq in NOT_REQUEST_HELPERS:
-                    R.sample(f"R4 {f.fq}: not a request helper — {NOT_REQUEST_HELPERS[f.fq]}")
-                    R.ob("R4", key + " (not a request helper)", True, where, NOT_REQUEST_HELPERS[f.fq])
+                elif f.fq.split(".<locals>")[0] in NOT_REQUEST_HELPERS:
+                    # the table names public functions; their nested helpers (whatever they are called) belong to them
+                    why = NOT_REQUEST_HELPERS[f.fq.split(".<locals>")[0]]
+                    R.sample(f"R4 {f.fq}: not a request helper — {why}")
+                    R.ob("R4", key + " (not a request helper)", True, where, why)
                 else:
                     tags = {t for _s, t, _n in ho.exc}
                     ok = not exits_normal and not rets and bool(ho.exc)
